@@ -493,7 +493,22 @@ def _read_request(
             )
         # Record the schema the kwargs came off, before as_py() erases it.
         _current_request_param_schema.set(batch.schema)
-        kwargs = {f.name: batch.column(i)[0].as_py() for i, f in enumerate(batch.schema)}
+        kwargs: dict[str, object] = {}
+        for i, f in enumerate(batch.schema):
+            try:
+                kwargs[f.name] = batch.column(i)[0].as_py()
+            except (ValueError, OverflowError, pa.ArrowException) as exc:
+                # The columns are the caller's, and not every valid Arrow value
+                # has a Python form (a nanosecond timestamp with a sub-microsecond
+                # part, an instant outside datetime's range).  That is a request
+                # this server cannot take, not a server fault: refuse it like any
+                # other malformed request instead of letting the conversion error
+                # escape the request-reading step.
+                raise RpcError(
+                    "ProtocolError",
+                    f"Cannot decode request parameter '{f.name}' of Arrow type {f.type}: {exc}",
+                    "",
+                ) from exc
     finally:
         if release_shm is not None:
             release_shm()
